@@ -164,6 +164,92 @@ theorem polyMk_map (c s : Rat) (t : Pt) (hk : 0 < c ^ 2 + s ^ 2) (l : List Pt) :
     · have : ¬ 0 < (c ^ 2 + s ^ 2) * chain2 (closeRing l) := fun h => hc (hiff.mp h)
       simp [hc, this, Except.map]
 
+/-! ### the polygon constructor is idempotent -/
+
+theorem cross2_antisymm (p q : Pt) : cross2 q p = - cross2 p q := by simp only [cross2]; ring
+
+theorem closedRing_iff : ∀ l : List Pt, ClosedRing l ↔ l.getLast? = l.head?
+  | [] => by simp [ClosedRing]
+  | p :: l => by rw [getLast?_cons]; simp [ClosedRing]
+
+theorem closedRing_reverse (l : List Pt) (h : ClosedRing l) : ClosedRing l.reverse := by
+  rw [closedRing_iff] at h ⊢
+  rw [List.getLast?_reverse, List.head?_reverse, h]
+
+theorem closeRing_of_closed : ∀ l : List Pt, ClosedRing l → closeRing l = l
+  | [], _ => rfl
+  | p :: l, h => by
+    have h' : lastOf p l = p := h
+    simp [closeRing, getLast?_cons, h']
+
+theorem chain2_append_singleton (q : Pt) : ∀ (p : Pt) (l : List Pt),
+    chain2 ((p :: l) ++ [q]) = chain2 (p :: l) + cross2 (lastOf p l) q
+  | p, [] => by simp [chain2, lastOf]
+  | p, r :: l => by
+    have ih := chain2_append_singleton q r l
+    simp only [List.cons_append] at ih ⊢
+    simp only [chain2, lastOf]
+    rw [ih]; ring
+
+theorem lastOf_reverse_cons (p : Pt) : ∀ (r : Pt) (l : List Pt), lastOf r (l ++ [p]) = p
+  | _, [] => rfl
+  | _, q :: l => by simp only [List.cons_append, lastOf]; exact lastOf_reverse_cons p q l
+
+theorem chain2_reverse : ∀ l : List Pt, chain2 l.reverse = - chain2 l
+  | [] => by simp [chain2]
+  | [p] => by simp [chain2]
+  | p :: q :: l => by
+    have ih := chain2_reverse (q :: l)
+    -- (p :: q :: l).reverse = (q :: l).reverse ++ [p]; the last vertex of (q :: l).reverse is q
+    have hne : (q :: l).reverse = l.reverse ++ [q] := by simp
+    rw [List.reverse_cons]
+    cases hr : l.reverse with
+    | nil =>
+      rw [hne, hr] at ih ⊢
+      simp only [List.nil_append] at ih ⊢
+      simp only [chain2, List.cons_append, List.nil_append]
+      have hl : l = [] := by simpa using hr
+      subst hl
+      simp only [chain2] at ih ⊢
+      rw [cross2_antisymm p q]; ring
+    | cons r rs =>
+      rw [hne, hr] at ih ⊢
+      have e := chain2_append_singleton p r (rs ++ [q])
+      simp only [List.cons_append, List.append_assoc] at e ih ⊢
+      rw [e, ih, lastOf_reverse_cons q r rs]
+      simp only [chain2]
+      rw [cross2_antisymm p q]; ring
+
+theorem length_closeRing_ge : ∀ l : List Pt, l.length ≤ (closeRing l).length
+  | [] => Nat.le_refl _
+  | p :: l => by
+    simp only [closeRing]
+    split <;> simp
+
+/-- the polygon constructor is idempotent: what it stores is in normal form. -/
+theorem polyMk_idem (vs r : List Pt) (h : polyMk vs = .ok r) : polyMk r = .ok r := by
+  unfold polyMk at h
+  by_cases hl : vs.length < 3
+  · simp [hl] at h
+  · simp only [hl, if_false, Except.ok.injEq] at h
+    have hc := closeRing_closed vs
+    have hlen := length_closeRing_ge vs
+    by_cases hpos : 0 < chain2 (closeRing vs)
+    · simp only [hpos, if_true] at h
+      subst h
+      have hcr := closedRing_reverse _ hc
+      unfold polyMk
+      have : ¬ (closeRing vs).reverse.length < 3 := by simp; omega
+      simp only [this, if_false, closeRing_of_closed _ hcr, chain2_reverse]
+      have : ¬ 0 < -chain2 (closeRing vs) := by linarith
+      simp [this]
+    · simp only [hpos, if_false] at h
+      subst h
+      unfold polyMk
+      have : ¬ (closeRing vs).length < 3 := by omega
+      simp only [this, if_false, closeRing_of_closed _ hc]
+      simp [hpos]
+
 /-! ### `make_valid_orientation` -/
 
 theorem downLoop_spec (τ : Rat) (hτ : 0 < τ) : ∀ (n : Nat) (x : Rat), x ≤ (n + 1) * τ →
